@@ -29,13 +29,13 @@ def run_seq_py(P, limit, ops):
                 import copy
                 import pickle
                 cx = copy.deepcopy(c) if op[1] == 0 else copy.copy(c) if op[1] == 1 else pickle.loads(pickle.dumps(c))
-                if op[1] == 1:
-                    cx.dict = type(c.dict)(c.dict)      # a shallow copy shares the entry table: give it its own
-                cx[("copy", len(copies))] = 1
-                try:
-                    cx[("s", 0)]
-                except KeyError:
-                    pass
+                if op[1] != 1:
+                    # (a shallow copy shares its entry table with the original: it is only watched, never used)
+                    cx[("copy", len(copies))] = 1
+                    try:
+                        cx[("s", 0)]
+                    except KeyError:
+                        pass
                 copies.append(cx)
                 obs.append("copied")
                 continue
